@@ -140,6 +140,11 @@ def malformed(chk, rng, found):
             p = {"f": 0, "k": 1}
         if name == "TrimmedMean":
             p = {"b": 1}
+        # the row-count rules of configured vectors are not left to the draw: leak / pref / weights of length 3
+        if "leak" in p:
+            p["leak"] = [F(1, 2), F(1, 4), F(3, 4)]
+        if "pref" in p:
+            p["pref"] = [F(1, 2), F(1, 4), F(3, 4)]
         good = [[F(1), F(2)], [F(-1), F(1)], [F(2), F(0)]]
         bads = []
         for dt in ("f32", "f64"):
@@ -151,10 +156,12 @@ def malformed(chk, rng, found):
                     t[i, j] = val
                     bads.append((f"{val} at ({i},{j})", t))
         # row-count contradictions
-        for dt in ("f64",):
+        for dt in ("f64", "f32"):
             if name == "Constant" or p.get("pref") is not None or p.get("leak") is not None:
                 bads.append(("one row less", A.to_tensor(good[:2], dt)))
                 bads.append(("one row more", A.to_tensor(good + [[F(1), F(1)]], dt)))
+                bads.append(("three rows more", A.to_tensor(good + [[F(1), F(1)], [F(0), F(2)], [F(3), F(-1)]], dt)))
+                bads.append(("one row only", A.to_tensor(good[:1], dt)))
             if name == "TrimmedMean":
                 bads.append(("m < 2b+1", A.to_tensor(good[:2], dt)))
             if name == "Krum":
